@@ -29,6 +29,7 @@ type fsig struct {
 	pathLean  map[string]string // path binder -> Lean type when the Go type has none (external objects)
 	qual      string            // fully qualified Lean name
 	nImplicit int
+	consumes  bool // advances / changes an abstract object reached through one of its parameters (-step)
 }
 
 // importCallees: calls of already emitted functions / methods of this unit bring their implicit binders into the caller.
@@ -52,6 +53,7 @@ func (t *tr) importCallees(f *fctx, stmts []ast.Stmt) (extraPaths []string, extr
 					if _, isExt := sg.pathLean[b.name]; isExt {
 						continue // external objects are declared by the (inherited) -extern flags of the caller itself
 					}
+					src = t.mapCalleePath(c, src)
 					if _, dup := extraTy[src]; !dup {
 						extraPaths = append(extraPaths, src)
 						extraTy[src] = sg.pathTy[b.name]
@@ -81,6 +83,19 @@ func (t *tr) calleeSig(c *ast.CallExpr) *fsig {
 				if _, isId := x.X.(*ast.Ident); isId {
 					if d, ok := t.u.decls[x.Sel.Name]; ok && t.u.info.Defs[d.Name] == sel.Obj() {
 						return t.u.sigs[x.Sel.Name]
+					}
+				}
+				// a method of another receiver type of the same package, translated by an earlier unit of this run, called on a
+				// variable or a field path (k.inner.M()): its receiver paths are re-rooted at the call (mapCalleePath)
+				if _, isSel := x.X.(*ast.SelectorExpr); (isSel && t.isFieldPath(x.X)) || !isSel {
+					rn := recvTypeName(fn)
+					for _, u := range t.units {
+						if u == t.u || u.pkg == nil || u.pkg.Path() != t.u.pkg.Path() || u.recv == "" || u.recv != rn {
+							continue
+						}
+						if sg := u.sigs[x.Sel.Name]; sg != nil && !sg.proc && !sg.stateful {
+							return sg
+						}
 					}
 				}
 			}
@@ -198,7 +213,7 @@ func (t *tr) autoHelpers(fd *ast.FuncDecl) {
 }
 
 func supported(k kind) bool {
-	return k == kByte || k == kNat || k == kInt || k == kBool || k == kBytes || k == kRec || k == kRecList || k == kSet || k == kAbs
+	return k == kByte || k == kNat || k == kInt || k == kBool || k == kBytes || k == kRec || k == kRecList || k == kSet || k == kAbs || k == kOpt
 }
 
 // collectPaths finds the field paths p.f.g (of a supported type) rooted at one of the given outer variables.
@@ -567,6 +582,10 @@ func (t *tr) fn(fd *ast.FuncDecl) string {
 	f.stateful = u.stateful[fd.Name.Name]
 	f.goSig, _ = u.info.Defs[fd.Name].Type().(*types.Signature)
 	f.patterns = u.patternsOf(fd.Name.Name)
+	f.everAssigned = map[types.Object]bool{}
+	if fd.Body != nil {
+		f.everAssigned = t.assignedObjs(fd.Body.List)
+	}
 	// canonical roots: the receiver is r, the i-th parameter a<i> (positions count unnamed parameters too)
 	if fd.Recv != nil {
 		for _, fl := range fd.Recv.List {
@@ -664,6 +683,7 @@ func (t *tr) fn(fd *ast.FuncDecl) string {
 	}
 	t.opaqueBinders(f, fd.Body.List, u.opaque[fd.Name.Name], fd)
 	t.blockBinders(f, fd.Body.List, fd.Name.Name, fd)
+	t.absNilBinders(f, fd.Body.List)
 	nImplicitHead := len(f.binders)
 	t.autoHelpers(fd)
 	extraPaths, extraTy := t.importCallees(f, fd.Body.List)
@@ -930,6 +950,7 @@ func (t *tr) fn(fd *ast.FuncDecl) string {
 	}
 	sg.proc = f.outs != nil
 	body := t.block(fd.Body.List, 1, k)
+	sg.consumes = f.consumesParams
 	if !f.stateful {
 		// never drop a state change silently: assigning a field of the receiver / a pointer parameter needs -stateful
 		isPath := map[types.Object]string{}
@@ -1099,4 +1120,74 @@ func firstLine(s string) string {
 		return s[:i] + " …"
 	}
 	return s
+}
+
+// absNilBinders: `x == nil` / `x != nil` on an abstract object asks the abstract predicate <Type>_isNil
+func (t *tr) absNilBinders(f *fctx, stmts []ast.Stmt) {
+	for _, s := range stmts {
+		ast.Inspect(s, func(nd ast.Node) bool {
+			if ie, ok := nd.(*ast.IndexExpr); ok {
+				// m[k] on an abstract map: only the comma-ok presence test `_, ok := m[k]` is translated: <Type>_has
+				if k, _ := classify(t.typeOf(ie.X)); k == kAbs {
+					if mt, isMap := t.typeOf(ie.X).Underlying().(*types.Map); isMap {
+						an, _ := absTypeOf(t.typeOf(ie.X))
+						if !f.hasBinder(an + "_has") {
+							f.binders = append(f.binders, binder{an + "_has", an + " → " + t.leanType(mt.Key()) + " → Bool"})
+						}
+					}
+				}
+			}
+			be, ok := nd.(*ast.BinaryExpr)
+			if !ok || (be.Op != token.EQL && be.Op != token.NEQ) {
+				return true
+			}
+			for _, pr := range [][2]ast.Expr{{be.X, be.Y}, {be.Y, be.X}} {
+				if id, ok := pr[1].(*ast.Ident); ok && id.Name == "nil" {
+					if k, _ := classify(t.typeOf(pr[0])); k == kAbs {
+						an, _ := absTypeOf(t.typeOf(pr[0]))
+						if !f.hasBinder(an + "_isNil") {
+							f.binders = append(f.binders, binder{an + "_isNil", an + " → Bool"})
+						}
+					}
+				}
+			}
+			return true
+		})
+	}
+}
+
+func recvTypeName(fn *types.Func) string {
+	sig, _ := fn.Type().(*types.Signature)
+	if sig == nil || sig.Recv() == nil {
+		return ""
+	}
+	ty := sig.Recv().Type()
+	if p, ok := ty.(*types.Pointer); ok {
+		ty = p.Elem()
+	}
+	if n, ok := ty.(*types.Named); ok {
+		return n.Obj().Name()
+	}
+	return ""
+}
+
+// mapCalleePath: a field path of the callee rooted at its receiver (`r.x`) seen from the call `k.inner.M()` is the path
+// `<key of k.inner>.x` of the caller.  (A call on the caller's own receiver maps r to r.)
+func (t *tr) mapCalleePath(c *ast.CallExpr, src string) string {
+	root, rest, has := strings.Cut(src, ".")
+	if root != "r" {
+		return src
+	}
+	sel, ok := c.Fun.(*ast.SelectorExpr)
+	if !ok {
+		return src
+	}
+	if s, ok := t.u.info.Selections[sel]; !ok || s.Kind() != types.MethodVal {
+		return src
+	}
+	key := t.pathKey(sel.X)
+	if !has {
+		return key
+	}
+	return key + "." + rest
 }
